@@ -49,6 +49,9 @@ type Case struct {
 	// trailing separator, double = doubled separator, dot = /./ before the last element, dotdot = <dir>/x/../<base>
 	OutSpelling string `json:"destination_spelling,omitempty"`
 	SrcSpelling string `json:"source_spelling,omitempty"`
+	// TightFileSize: small trees only - a per-file maximum of 3500 bytes (every file and the archive fit; a directory of the
+	// operating system "weighs" 4096)
+	TightFileSize bool `json:"file_size_limit_is_the_largest_file,omitempty"`
 }
 
 func spell(p, how string) string {
@@ -70,6 +73,17 @@ func spell(p, how string) string {
 func generous() filesystem.ILimits { return filesystem.NewLimits(1<<30, 1<<34, 1<<20, -1, false) }
 
 func (c Case) limits() filesystem.ILimits {
+	if c.TightFileSize {
+		// a per-file limit below the size the operating system reports for a directory (4096 bytes), yet above every file of
+		// the tree and above the archive itself (which is a file too): everything fits
+		est := int64(200)
+		for _, n := range c.Tree {
+			est += int64(2*len(n.Path)+150) + int64(n.Content.Len)
+		}
+		if est < 3000 {
+			return filesystem.NewLimits(3500, 1<<34, 1<<20, -1, c.Recursive)
+		}
+	}
 	if c.Recursive {
 		return filesystem.NewLimits(1<<30, 1<<34, 1<<20, -1, true)
 	}
@@ -686,6 +700,7 @@ func TestRoundTrip(t *testing.T) {
 		c := Case{Backend: rapid.SampledFrom([]string{"mem", "os"}).Draw(rt, "backend"), Limits: rapid.Bool().Draw(rt, "limits")}
 		c.Tree = genTree(rt, false)
 		c.Recursive = c.Limits && rapid.Bool().Draw(rt, "recursive-limits")
+		c.TightFileSize = c.Limits && rapid.IntRange(0, 3).Draw(rt, "tight-file-size") == 0
 		c.OutSpelling = rapid.SampledFrom([]string{"", "", "", "slash", "double", "dot", "dotdot"}).Draw(rt, "out-spelling")
 		c.SrcSpelling = rapid.SampledFrom([]string{"", "", "", "slash", "double", "dot", "dotdot"}).Draw(rt, "src-spelling")
 		// files named like archives (any letter case) with ordinary content
